@@ -96,7 +96,9 @@ def getIndices (axes : List Axis) (ui : UserIndex) (cfg : IndexCfg) : Except Err
   let mode := cfg.mode
   (key.zip axes).mapM fun (ix, ax) => do
     let r ← match ix with
-      | .mask m => pure (RawIx.mask m)
+      | .mask m =>
+        -- a boolean index must have the size of its axis (reads and assignments alike)
+        if m.length == ax.size then pure (RawIx.mask m) else .error .index
       | _ =>
         if mode != .position && !ix.isFull then loc ax.labels ax.kind ix cfg.tol
         else ixToRaw ix
